@@ -290,9 +290,14 @@ class Point(object):
         # If linear combination, combine the values of the leaf (they change at each solve: never reuse an old result),
         # and store the result before returning it.
         else:
-            value = np.zeros(Point.counter)
+            # (Accumulate from the leaves' values themselves: their dimension is the number of leaf points of the PEP
+            # that was solved, which differs from Point.counter as soon as a new Point has been created since.)
+            value = None
             for point, weight in self.decomposition_dict.items():
-                value += weight * point.eval()
+                term = weight * point.eval()
+                value = term if value is None else value + term
+            if value is None:
+                value = np.zeros(Point.counter)
             self._value = value
 
         return self._value
